@@ -401,10 +401,37 @@ func (r *rewriter) run() {
 				c.Replace(r.simrtCall(fn, n.X))
 				r.st["chan.recv"]++
 			}
+		case *ast.IndexExpr:
+			// every access to a built-in map goes through simrt.MapR / MapW (happens-before checking)
+			if tv, ok := r.info.Types[n.X]; ok && tv.IsValue() {
+				if _, ok := tv.Type.Underlying().(*types.Map); ok {
+					fn := "MapR"
+					switch p := c.Parent().(type) {
+					case *ast.AssignStmt:
+						if c.Name() == "Lhs" {
+							fn = "MapW"
+						}
+						_ = p
+					case *ast.IncDecStmt:
+						fn = "MapW"
+					}
+					n.X = r.simrtCall(fn, n.X)
+					r.st["map."+fn]++
+				}
+			}
 		case *ast.CallExpr:
 			if id, ok := n.Fun.(*ast.Ident); ok {
 				if b, ok := r.info.Uses[id].(*types.Builtin); ok {
 					switch b.Name() {
+					case "delete", "clear":
+						if len(n.Args) >= 1 {
+							if t := r.info.TypeOf(n.Args[0]); t != nil {
+								if _, ok := t.Underlying().(*types.Map); ok {
+									n.Args[0] = r.simrtCall("MapW", n.Args[0])
+									r.st["map.MapW"]++
+								}
+							}
+						}
 					case "close":
 						c.Replace(r.simrtCall("ChanClose", n.Args[0]))
 						r.st["chan.close"]++
